@@ -79,6 +79,14 @@ fn crc64(b: &[u8]) -> u64 {
     crc::Crc::<u64>::new(&crc::CRC_64_XZ).checksum(b)
 }
 
+fn out_repr_full(bs: &[u8], full: bool) -> String {
+    if full {
+        hex(bs)
+    } else {
+        out_repr(bs)
+    }
+}
+
 fn out_repr(bs: &[u8]) -> String {
     if bs.len() <= 256 {
         hex(bs)
@@ -168,10 +176,13 @@ impl Sink {
         Sink(Rc::new(RefCell::new(st)))
     }
     fn repr(&self) -> String {
+        self.repr_full(false)
+    }
+    fn repr_full(&self, full: bool) -> String {
         let s = self.0.borrow();
         format!(
             "out={} fl={} lf={}",
-            out_repr(&s.out),
+            out_repr_full(&s.out, full),
             s.flushes,
             if s.last_flush { 1 } else { 0 }
         )
@@ -443,7 +454,13 @@ fn run_oneshot(op: &str, f: &Fields) -> String {
     } else {
         String::new()
     };
-    format!("{} used={} {}{}", verdict(&r), used, sink.repr(), extra)
+    format!(
+        "{} used={} {}{}",
+        verdict(&r),
+        used,
+        sink.repr_full(get(f, "full") == "1"),
+        extra
+    )
 }
 
 fn run_rawlzma(f: &Fields) -> String {
@@ -567,6 +584,38 @@ fn run_stream(f: &Fields) -> String {
                     Err(_) => outs.push(format!("wpanic@{}", sink.len())),
                 }
             }
+            ["wa", h] => {
+                let data = unhex(h);
+                let s = match st.as_mut() {
+                    Some(s) => s,
+                    None => break,
+                };
+                let mut rest: &[u8] = &data;
+                let mut acc = 0usize;
+                let mut res: Option<&'static str> = None;
+                while !rest.is_empty() {
+                    let r = catch_unwind(AssertUnwindSafe(|| s.write(rest)));
+                    match r {
+                        Ok(Ok(0)) => break,
+                        Ok(Ok(n)) => {
+                            acc += n;
+                            rest = &rest[n..];
+                        }
+                        Ok(Err(_)) => {
+                            res = Some("err");
+                            break;
+                        }
+                        Err(_) => {
+                            res = Some("panic");
+                            break;
+                        }
+                    }
+                }
+                match res {
+                    None => outs.push(format!("wa{}@{}", acc, sink.len())),
+                    Some(v) => outs.push(format!("wa{}@{}", v, sink.len())),
+                }
+            }
             ["f"] => {
                 let s = match st.as_mut() {
                     Some(s) => s,
@@ -587,7 +636,11 @@ fn run_stream(f: &Fields) -> String {
             _ => {}
         }
     }
-    format!("{} {}", outs.join(" "), sink.repr())
+    format!(
+        "{} {}",
+        outs.join(" "),
+        sink.repr_full(get(f, "full") == "1")
+    )
 }
 
 #[cfg(lzma_rs_verif)]
@@ -726,7 +779,12 @@ fn run_enc(f: &Fields) -> String {
         }
     }));
     let w = sink.0.borrow().writes;
-    format!("{} {} w={}", verdict(&r), sink.repr(), w)
+    format!(
+        "{} {} w={}",
+        verdict(&r),
+        sink.repr_full(get(f, "full") == "1"),
+        w
+    )
 }
 
 fn run_crc(f: &Fields) -> String {
